@@ -20,6 +20,8 @@ package proposal
 //@   requires proposal.Status.PrevIndex < proposal.TransactionIndex
 //@   ensures {C01,C02} aborted-advances-both: old(proposal.Status.Phases.Abort.State) == configapi.ProposalAbortPhase_ABORTING && proposal.Status.Phases.Abort.State == configapi.ProposalAbortPhase_ABORTED ==> storedCfgCommitted >= proposal.TransactionIndex && storedCfgApplied >= proposal.TransactionIndex
 //@   ensures {C01} abort-writes-no-values: cfgValueWrites == old(cfgValueWrites) && cfgCreates == old(cfgCreates)
+// recovery after a crash between the configuration write and the proposal write of the abort step
+//@   ensures {C07} abort-completes-once-indexes-passed: old(proposal.Status.Phases.Abort.State) == configapi.ProposalAbortPhase_ABORTING && readCfgOK && readCfgCommitted >= proposal.TransactionIndex && readCfgApplied >= proposal.TransactionIndex && err == nil ==> proposal.Status.Phases.Abort.State == configapi.ProposalAbortPhase_ABORTED
 
 //@ import gnmi "github.com/onosproject/onos-config/pkg/southbound/gnmi"
 //@ import codes "google.golang.org/grpc/codes"
